@@ -25,7 +25,7 @@ RULE = ("(sched) real worker processes under a scheduled arrival order, torch's 
         "trace (arrivals, the poll that found the dead worker) is replayed on SdlFault.v and the outcome sequences compared; a state_dict taken before the death is "
         "pickled, loaded into a fresh loader and must yield the uninterrupted remainder; (free) default multiprocessing context and SIGCHLD handler: the same crash "
         "points plus death inside worker_init_fn (start-up handshake) and inside iter(dataset) of a persistent worker at the start of the second epoch (resume "
-        "handshake); per-call deadline 40 s; oracle: every batch before the error is the next reference batch, a RuntimeError is raised (never a hang, never "
+        "handshake) and death half-way through WRITING a 2 MB result into the result pipe (fresh workers, and persistent workers in their second epoch); per-call deadline 40 s; oracle: every batch before the error is the next reference batch, a RuntimeError is raised (never a hang, never "
         "StopIteration before the epoch is complete); non-trivial = the dead worker still had undelivered batches; distinct = distinct (config, crash point, schedule)")
 TRUSTED = ["real SIGKILL; multiprocessing is_alive(); the arrival-scheduling context sdl_impl.ArrivalCtx (a dead worker's already queued results still arrive, then the poll "
            "finds it dead); wall-clock deadline 40 s per next() (MP_STATUS_CHECK_INTERVAL = 5 s)"]
@@ -185,6 +185,12 @@ def gen_cases(rng, tier, drift):
         k_state = rng.randint(0, max(0, min(kill["after"], len(ref) - 1)))
         cases.append(dict(kind="sched" if sched else "free", cfg=cfg, kill=kill, k_state=k_state,
                           choices=[rng.randint(0, 5) for _ in range(3 * len(ref) + 12)]))
+    for i in range(2 if tier == "quick" and not drift else 6):
+        # death HALF-WAY THROUGH WRITING a result into the result pipe (a 2 MB batch, the consumer busy for 3 s): the main process then
+        # blocks inside a truncated message, the 5 s poll never runs, only the SIGCHLD notification can report the death;
+        # first epoch of fresh workers / second epoch of persistent workers (which retired cleanly at the end of the first)
+        cases.append(dict(kind="free", cfg=dict(kind="iter", W=2, P=2, I=1, bs=None, persistent=(i % 2 == 0), sizes=[5, 5]),
+                          kill=dict(mode="midwrite", worker=0, how="kill", item=None, after=0), k_state=0, choices=[i]))
     return cases
 
 
@@ -243,8 +249,102 @@ def run_impl(c):
     return r
 
 
+def _midwrite_dataset(victim, kill_epoch, per):
+    import torch.utils.data as tud
+
+    class DS(tud.IterableDataset):
+        def __init__(self):
+            self.epoch = 0
+
+        def __iter__(self):
+            w = tud.get_worker_info().id
+            self.epoch += 1            # a persistent worker's copy counts the epochs it served; a fresh worker's copy always says 1
+            big = w == victim and self.epoch == kill_epoch
+            for j in range(per):
+                if big and j == 2:     # die one second from now, while the previous 2 MB result is stuck half-written
+                    threading.Timer(1.0, lambda: os.kill(os.getpid(), signal.SIGKILL)).start()
+                yield (w, j, (bytes([65 + j]) * (2 << 20)) if big else b"")
+    return DS()
+
+
+class _Blocked(BaseException):
+    pass
+
+
+def _midwrite_child(c, conn):
+    """runs in a process of its own (it ends with os._exit: a loader whose result pipe holds a truncated message cannot be shut down cleanly)"""
+    from torchdata.stateful_dataloader import StatefulDataLoader
+    cfg, per = c["cfg"], 5
+    kill_epoch = 2 if cfg["persistent"] else 1
+    res = dict(got=[], outcome=None, first_ok=True)
+    try:
+        dl = StatefulDataLoader(_midwrite_dataset(c["kill"]["worker"], kill_epoch, per), batch_size=None, num_workers=2,
+                                persistent_workers=cfg["persistent"], prefetch_factor=2)
+        if kill_epoch == 2:
+            first = [(b[0], b[1]) for b in dl]
+            res["first_ok"] = first == [(w, j) for j in range(per) for w in range(2)]
+
+        def on_alarm(signum, frame):
+            raise _Blocked()
+        signal.signal(signal.SIGALRM, on_alarm)
+        signal.alarm(40)
+        try:
+            for i, b in enumerate(dl):
+                res["got"].append((b[0], b[1]))
+                if i == 1:
+                    time.sleep(3.0)
+            res["outcome"] = "stop"
+        except _Blocked:
+            res["outcome"] = "blocked"
+        except BaseException as e:  # noqa
+            res["outcome"] = "err:" + type(e).__name__
+        signal.alarm(0)
+    except BaseException as e:  # noqa
+        res["outcome"] = "harness:" + type(e).__name__ + ": " + str(e)[:100]
+    try:
+        signal.signal(signal.SIGCHLD, signal.SIG_DFL)
+        conn.send(res)
+        for p in multiprocessing.active_children():
+            p.kill()
+    finally:
+        os._exit(0)
+
+
+def run_midwrite(c):
+    ctx = multiprocessing.get_context("fork")
+    parent, child = ctx.Pipe()
+    p = ctx.Process(target=_midwrite_child, args=(c, child))
+    p.start()
+    child.close()
+    try:
+        res = parent.recv() if parent.poll(120) else dict(got=[], outcome="blocked", first_ok=True)
+    except (EOFError, OSError):
+        res = dict(got=[], outcome="harness: child died", first_ok=True)
+    p.kill()
+    p.join(5)
+    fails = []
+    exp = [(w, j) for j in range(5) for w in range(2)]
+    got = [tuple(x) for x in res["got"]]
+    if not res["first_ok"]:
+        fails.append("the first (undisturbed) epoch of the persistent workers was not the reference")
+    if got != exp[:len(got)]:
+        fails.append(f"batches delivered {got} are not a prefix of the reference {exp}")
+    if res["outcome"] == "blocked":
+        fails.append(f"next() still blocked 40 s after worker {c['kill']['worker']} was SIGKILLed half-way through writing a result "
+                     f"(persistent_workers={c['cfg']['persistent']}, {len(got)} batches delivered, no error)")
+    elif res["outcome"] == "stop":
+        fails.append(f"StopIteration after {len(got)} of {len(exp)} batches: the epoch ended early as if complete (worker killed while writing a result)")
+    elif res["outcome"].startswith("harness"):
+        return dict(harness_error=res["outcome"])
+    elif res["outcome"] != "err:RuntimeError":
+        fails.append(f"worker death surfaced as {res['outcome']}, expected RuntimeError")
+    return dict(oracle="; ".join(fails[:2]) or None, nontrivial=True, key=[c["cfg"], c["kill"], c["choices"]], summary=dict(outs=res["outcome"], got=len(got)))
+
+
 def run_once(c):
     cfg, kill = c["cfg"], c["kill"]
+    if kill["mode"] == "midwrite":
+        return run_midwrite(c)
     DIE_HOW[0] = kill.get("how", "kill")
     ref = [b if isinstance(b, list) else [b] for b in si.batches_ref(cfg)]
     fails, outs = [], []
